@@ -571,6 +571,51 @@ Proof.
     destruct b; try discriminate. destruct l; reflexivity.
 Qed.
 
+(* ------------------------------------------------------------------ who notices the loss *)
+
+Lemma dial_nil_after_established : forall e, dial_returns_error e = false.
+Proof. intros []; reflexivity. Qed.
+
+Lemma ws_result_tw b : ws_result (to_writer b) = ws_result b.
+Proof. destruct b; reflexivity. Qed.
+
+Lemma holds_tw b : holds (to_writer b) = holds b.
+Proof. destruct b; reflexivity. Qed.
+
+Definition sched_to_writer (sch : list sbeh) : list sbeh := map (fun ab => (fst ab, to_writer (snd ab))) sch.
+
+Lemma iter_plain_tw c s carry b ph : iter_plain c s carry (to_writer b) ph = iter_plain c s carry b ph.
+Proof. unfold iter_plain, dial_outcome. rewrite ws_result_tw. reflexivity. Qed.
+
+Lemma iter_auth_tw c s a b ph : iter_auth c s (a, to_writer b) ph = iter_auth c s (a, b) ph.
+Proof. unfold iter_auth, dial_outcome. rewrite ws_result_tw. reflexivity. Qed.
+
+Lemma keeps_tw l a b : keeps l (a, to_writer b) = keeps l (a, b).
+Proof. unfold keeps. cbn [fst snd]. rewrite holds_tw. reflexivity. Qed.
+
+Lemma run_to_writer l c cp sch : forall i s carry,
+  run l c i s carry (sched_to_writer sch) cp = run l c i s carry sch cp.
+Proof.
+  induction sch as [|[a b] r IH]; intros i s carry; [reflexivity|].
+  cbn [sched_to_writer map run fst snd]. fold (sched_to_writer r).
+  unfold blocked. rewrite keeps_tw.
+  destruct l; [rewrite iter_plain_tw | rewrite iter_auth_tw].
+  - destruct (cancelled (if seen_at_head LPlain (phase_here cp i) then stop s else s)); [reflexivity|].
+    destruct (iter_plain c (if seen_at_head LPlain (phase_here cp i) then stop s else s) carry b (phase_here cp i)) as [[evs s1] carry1].
+    rewrite IH. reflexivity.
+  - destruct (cancelled (if seen_at_head LAuth (phase_here cp i) then stop s else s)); [reflexivity|].
+    destruct (iter_auth c (if seen_at_head LAuth (phase_here cp i) then stop s else s) (a, b) (phase_here cp i)) as [[evs s1] carry1].
+    rewrite IH. reflexivity.
+Qed.
+
+(* an established connection resets the backoff whichever pump noticed its end: Dial returns nil for
+   every way an established connection can end, and the whole run (waits, outcomes, behaviour under
+   every cancellation) is the same when every drop is noticed by the writer instead of the reader *)
+Lemma reset_whichever_pump_notices :
+  (forall e, dial_returns_error e = false) /\
+  (forall l c sch cp, client l c (sched_to_writer sch) cp = client l c sch cp).
+Proof. split; [exact dial_nil_after_established | intros; apply run_to_writer]. Qed.
+
 (* ------------------------------------------------------------------ the pumps are FIFO *)
 
 Lemma firstn_len_app {A} (a b : list A) : firstn (length a) (a ++ b) = a.
